@@ -216,8 +216,8 @@ def main():
              'kind_free_text': 'small-scope exhaustive input-shape enumerator against a reference codec / structural walker'},
             {'name': 'E4', 'path': 'vf/props/c20.py', 'serves_properties': ['C20'],
              'kind_free_text': 'crash-point enumerator over an in-memory file system (every event history x restart after every event x every torn-tail offset)'},
-            {'name': 'E5', 'path': 'vf/threads.py', 'serves_properties': ['C06', 'C07', 'C16', 'C17', 'C18'],
-             'kind_free_text': 'preemption-bounded interleaving explorer for two real threads (sys.settrace line events + per-thread semaphore baton): every schedule with <= 1 preemption (thorough: 2) over pairs of encoder / decoder / REST-request / reactor-event bodies, against the bodies\' own sequential results'},
+            {'name': 'E5', 'path': 'vf/threads.py', 'serves_properties': ['C06', 'C07', 'C14', 'C16', 'C17', 'C18', 'C19'],
+             'kind_free_text': 'preemption-bounded interleaving explorer for two real threads (sys.settrace line events + per-thread semaphore baton, cooperative locks): every schedule with <= 1 preemption (thorough: 2) over pairs of encoder / decoder / REST-request / reactor-event bodies, warm and from a cold start (each execution in a fresh forked process), against the bodies\' own sequential results (linearizability where the bodies do not commute)'},
         ],
         'checks': checks,
         'not_applicable': [{'property_id': p, 'reason': NOT_YET} for p in props if p not in CHECKS],
